@@ -31,6 +31,11 @@ CHECKS = {
         text="Exploration: expressions made only of allocating constructs (array/map literals, ranges with run-time bounds that are ascending, empty, descending or astronomically large, map/filter results, per-element nested allocations) in drawn orders; the reference ledger predicts the total A; with vm.MemoryBudget set to a budget around A the run must complete iff A < budget, refusals must be budget errors, completed results must equal the reference. Optimiser on/off, typed/untyped.",
         note="Trusted: the ledger in harness/core/refeval.go (what counts as created elements is read off the property statement: arrays, maps and ranges built during evaluation, intermediates included). The reference refuses to build more than 4e5 elements itself (skipped, counted).",
         ref="4/C06"),
+    "C07": dict(
+        technique="model-based property testing (rapid): generated histories of (program, environment) runs on one vm.VM, the model of a reused VM being a fresh VM; invariant checked after every step; whole history shrunk as one value",
+        text="Exploration: histories of 2-40 (thorough 2-400) runs over pools of generated programs, programs failing midway inside nested loops, allocating programs under small budgets (cumulative allocation crosses the budget up to 30x) and programs whose environment functions depend on the bound environment value; after every run the reused VM's value (Exact), failure message, environment-call log, stack and scope are compared with a fresh VM, and recently returned values are re-inspected for modification by later runs.",
+        note="Trusted: vm.Run on a fresh VM as the model; Exact/Show. vm.MemoryBudget is process-global: the check is single-goroutine and restores it.",
+        ref="4/C07"),
     "C10": dict(
         technique="bounded exhaustive enumeration of (parent kind, child slot, child kind) triples + rapid random ast.Node trees against a reflection-based child enumerator; replacement visitors; Patch differential (41->42) end to end",
         text="Exploration, exhaustive over all single-edge shapes: every node kind in every child slot of every parent kind (optional slots absent/present, lists of length 0-3), each with and without a replacing visitor on Enter and on Exit; random deep trees; parsed and optimised trees of generated programs; and a differential between Compile(src, Patch(41->42)) and Compile(src with 42) with the literal at drawn positions.",
